@@ -161,7 +161,7 @@ impl IncRef {
                     r.v[0] = 50.0;
                 } else {
                     r.cond = self.m.max(u.f()).max(d.f()) / den.f();
-                    r.v[0] = u.mulf(100.0).div(den).f();
+                    r.v[0] = u.div(den).mulf(100.0).f();
                 }
             }
             Kind::FastStoch | Kind::SlowStoch => {
